@@ -218,9 +218,13 @@ class StorageRunner:
             if self.out.failures:
                 break
 
+    count_queries = True
+
     def check(self, where=''):
-        self.out.evals += self.battery.compare(self.storage, self.model, self.out, self.prop,
-                                               where=where, light=self.light)
+        n = self.battery.compare(self.storage, self.model, self.out, self.prop,
+                                 where=where, light=self.light)
+        if self.count_queries:
+            self.out.evals += n
 
     def step(self, op):
         k = op[0]
@@ -261,26 +265,56 @@ class StorageRunner:
     def begin(self, t, **kw):
         self.storage.tpc_begin(t, **kw)
 
+    def abort(self, t):
+        self.aborting = True
+        self.storage.tpc_abort(t)
+        self.aborting = False
+
     def finish(self, t, f=None):
         return self.storage.tpc_finish(t, f) if f else self.storage.tpc_finish(t)
 
+    injected = ()          # exception classes raised by injected faults (C05)
+    probe = None           # callable(runner, t, phase) run inside open transactions (C05)
+
     def do_txn(self, meta, recs, end):
+        s = self.storage
+        t, user, desc, ext = self.tmeta(meta)
+        self.in_finish = False
+        self.aborting = False
+        self.last_fault = None
+        self.abort_error = None
+        try:
+            self._txn_body(t, user, desc, ext, meta, recs, end)
+        except self.injected as e:
+            self.last_fault = e
+            self.labels.add('fault-in-finish' if self.in_finish else 'fault-before-finish')
+            if self.aborting:
+                # the exception came out of tpc_abort itself: not called twice
+                self.abort_error = e
+                self.labels.add('abort-raised')
+                return
+            try:
+                s.tpc_abort(t)
+            except self.injected as e2:
+                self.abort_error = e2
+                self.labels.add('abort-raised')
+
+    def _txn_body(self, t, user, desc, ext, meta, recs, end):
         from ZODB.FileStorage.FileStorage import FileStorageError
         from ZODB.POSException import ConflictError, POSKeyError, UndoError
         s = self.storage
-        t, user, desc, ext = self.tmeta(meta)
         before_last = self.model.last_tid()
         try:
             self.begin(t)
         except FileStorageError as e:
-            if self.kind.startswith('fs') and self.meta_too_long(user, desc, ext):
+            if self.kind in ('fs', 'fs-nogc', 'demo-fs') and self.meta_too_long(user, desc, ext):
                 self.labels.add('meta-too-long')
-                s.tpc_abort(t)
+                self.abort(t)
                 return
             raise
-        if self.kind.startswith('fs') and self.meta_too_long(user, desc, ext):
+        if self.kind in ('fs', 'fs-nogc', 'demo-fs') and self.meta_too_long(user, desc, ext):
             self.fail('tpc_begin', 'accepted-overlong-metadata', 'lengths %r' % (meta,))
-            s.tpc_abort(t)
+            self.abort(t)
             return
         abort_at = end[1] if end[0] == 'abort' else None
         written = []        # (oid, data)
@@ -290,7 +324,7 @@ class StorageRunner:
         is_undo = False
         n = 0
         if abort_at == 0:
-            s.tpc_abort(t)
+            self.abort(t)
             self.labels.add('abort-after-begin')
             return
         for r in recs:
@@ -372,19 +406,30 @@ class StorageRunner:
                     self.labels.add('undo-of-creation')
             n += 1
             if abort_at is not None and abort_at > 0 and n >= abort_at:
-                s.tpc_abort(t)
+                self.abort(t)
                 self.labels.add('abort-after-store')
                 return
         if failed:
-            s.tpc_abort(t)
+            self.abort(t)
             return
+        if self.probe:
+            self.probe(self, t, 'stored')
         s.tpc_vote(t)
         if abort_at is not None:
-            s.tpc_abort(t)
+            self.abort(t)
             self.labels.add('abort-after-vote')
             return
         got = []
-        tid = self.finish(t, lambda tid: got.append(tid))
+        if self.probe:
+            self.probe(self, t, 'voted')
+        self.in_finish = True
+        self.pending = Txn(None, ' ', user, desc, ext, written, 'undo' if is_undo else 'store')
+
+        def callback(tid):
+            got.append(tid)
+            self.pending.tid = tid
+        tid = self.finish(t, callback)
+        self.in_finish = False
         if got != [tid]:
             self.fail('tpc_finish', 'callback', 'callback got %r, returned %r' % (got, tid))
         if not (isinstance(tid, bytes) and len(tid) == 8 and tid > before_last):
